@@ -2,8 +2,9 @@
    Statements only; the proofs are in Proofs/TraceLemmas.v (highlighter, numbering, frames, report shape) and
    Proofs/LiteralLemmas.v (text put into markup by _literal is shown as it is, decorated or not, and never makes the
    formatter fail) and Proofs/TraceRenderLemmas.v (the composition: every line the renderer writes is such a line,
-   indentation keeps it one, hence render never fails once tokenize has succeeded, and what the bytes say).
-   tokenize / inspect / crashtest deliver the token streams and frames: they are inputs of the model;
+   indentation keeps it one; the lines always exist - the renderer catches what reading / tokenizing a source raises,
+   fix caca46b -; hence render never fails, and what the bytes say).
+   tokenize / inspect / crashtest deliver the token streams and frames (or fail): they are inputs of the model;
    the hypotheses on token streams (row_wf, rows_ok, phys_line) are checked on every stream of every run by the harness. *)
 From Coq Require Import Lia.
 From Clikit Require Import Base.Prelude Base.Res Model.Conv Model.Markup Model.OutputM Model.Trace
@@ -111,6 +112,25 @@ Theorem stack_trace_lists_frames : forall c ind fs ls,
   forall f, In f (trace_frames c fs) -> exists k w, In (loc_line c ind w f k) ls.
 Proof. exact render_trace_lists. Qed.
 Print Assumptions stack_trace_lists_frames.
+(* ... and the stack trace always is printed then: whatever tokenize did on the frames' sources *)
+Theorem stack_trace_always_lists_frames : forall c ind fs,
+  t_verbose c = true -> (zlen (kept_frames c fs) - 1 <> 0)%Z ->
+  exists ls, render_trace c ind fs = Ok ls /\ forall f, In f (trace_frames c fs) -> exists k w, In (loc_line c ind w f k) ls.
+Proof. exact render_trace_lists_total. Qed.
+Print Assumptions stack_trace_always_lists_frames.
+(* under a listed frame, below debug verbosity: its own line, highlighted - or, when tokenize raised on it (whatever it
+   raised) or no line came out, as it is (frame_text, plain_code); at debug verbosity: the snippet, or nothing when the
+   file cannot be read or tokenized *)
+Theorem frame_line_below_debug : forall c ind w f, t_debug c = false ->
+  frame_code c ind w f = Ok (render_line ind (rjust [32%N] w ++ [32; 32]%N ++ frame_text f) false 0).
+Proof. exact frame_code_verbose. Qed.
+Print Assumptions frame_line_below_debug.
+Theorem frame_line_falls_back_to_plain : forall f, ~ tok_ok (f_linetoks f) -> frame_text f = styled HDefault (strip (f_line f)).
+Proof. exact frame_text_fallback. Qed.
+Print Assumptions frame_line_falls_back_to_plain.
+Theorem unreadable_source_gives_no_snippet : forall c t line before after, ~ tok_ok t -> snippet_of c t line before after = Ok [].
+Proof. exact snippet_of_unreadable. Qed.
+Print Assumptions unreadable_source_gives_no_snippet.
 
 (* ---- the report contains the class name and the message; in simple mode just the message ---- *)
 Theorem full_report_shape : forall c ind x ls,
@@ -119,6 +139,13 @@ Theorem full_report_shape : forall c ind x ls,
     ls = tr ++ [(ind, []); (ind, name_line x); (ind, []); (ind, msg_line x)] ++ sn.
 Proof. exact render_exception_shape. Qed.
 Print Assumptions full_report_shape.
+(* and it always has that shape: the lines of a full report exist for every exception case with frames *)
+Theorem full_report_always_has_its_shape : forall c ind x,
+  x_frames x <> [] ->
+  exists tr sn, render_trace c ind (x_frames x) = Ok tr /\
+    render_exception c ind x = Ok (tr ++ [(ind, []); (ind, name_line x); (ind, []); (ind, msg_line x)] ++ sn).
+Proof. exact render_exception_shape_total. Qed.
+Print Assumptions full_report_always_has_its_shape.
 Theorem simple_report_shape : forall c ind x,
   render_lines c true ind x = Ok [(ind, s_error_open ++ literal (x_msg x) st_error ++ s_error_close)].
 Proof. exact render_simple_shape. Qed.
@@ -185,14 +212,13 @@ Theorem writing_a_good_line_never_fails : forall sty o ind ps,
     (if decorated o then strip_sgr text else text) = flat_map piece_shown (wpieces ind ps).
 Proof. exact write_pieces. Qed.
 Print Assumptions writing_a_good_line_never_fails.
-(* the lines exist exactly when tokenize succeeded where the renderer needs it (render_cond: the last frame's file;
-   when the stack trace is printed, at debug verbosity every listed frame's file, below it no listed frame's own line
-   fails with anything but TokenError); the simple report always exists *)
-Theorem report_lines_exist_iff_tokenize_succeeded : forall c ind x,
-  (exists ls, render_lines c false ind x = Ok ls) <-> render_cond c x.
-Proof. exact render_lines_ok. Qed.
-Print Assumptions report_lines_exist_iff_tokenize_succeeded.
-(* once the lines exist nothing can fail ... *)
+(* the lines ALWAYS exist: for every configuration, report mode, indentation and exception case - any frames, any token
+   streams, any failure of tokenize or of reading a file (before fix caca46b: exactly when tokenize succeeded where the
+   renderer needed it) *)
+Theorem report_lines_always_exist : forall c simple ind x, exists ls, render_lines c simple ind x = Ok ls.
+Proof. exact render_lines_total. Qed.
+Print Assumptions report_lines_always_exist.
+(* writing them cannot fail ... *)
 Theorem writing_the_report_never_fails : forall sty c simple o x ls,
   out_ok sty o -> resolvable sty st_error -> resolvable sty st_b ->
   render_lines c simple (o_indent o) x = Ok ls ->
@@ -200,26 +226,42 @@ Theorem writing_the_report_never_fails : forall sty c simple o x ls,
   exists bytes, render c simple o x = Ok bytes.
 Proof. exact render_never_fails_l. Qed.
 Print Assumptions writing_the_report_never_fails.
-(* ... so render fails only if tokenize does *)
-Theorem render_fails_only_if_tokenize_does : forall sty c simple o x,
+(* ... so render never fails.  On an output that does not decorate (plain formatter, or formatting off): for EVERY
+   exception case, no hypothesis on it *)
+Theorem render_never_fails_undecorated : forall sty c simple o x,
+  out_ok sty o -> resolvable sty st_error -> resolvable sty st_b -> decorated o = false ->
+  exists bytes, render c simple o x = Ok bytes.
+Proof. exact render_never_fails_plain. Qed.
+Print Assumptions render_never_fails_undecorated.
+(* on any output, when - if it decorates - no line holds ESC *)
+Theorem render_never_fails_given_escape_free_lines : forall sty c simple o x,
   out_ok sty o -> resolvable sty st_error -> resolvable sty st_b ->
-  (simple = false -> render_cond c x) ->
   (decorated o = true -> forall ls, render_lines c simple (o_indent o) x = Ok ls -> Forall (fun wl => no_esc (snd wl)) ls) ->
   exists bytes, render c simple o x = Ok bytes.
 Proof. exact render_never_fails. Qed.
-Print Assumptions render_fails_only_if_tokenize_does.
+Print Assumptions render_never_fails_given_escape_free_lines.
 (* the lines hold no ESC when the inputs hold none (class name, message, file and function names, source text, tokens;
-   the path separator is not ESC): render fails only if tokenize does, decorated or not *)
+   the path separator is not ESC) *)
 Theorem escape_free_inputs_give_escape_free_lines : forall c simple ind x ls,
   inputs_ne c x -> render_lines c simple ind x = Ok ls -> Forall (fun wl => no_esc (snd wl)) ls.
 Proof. exact lines_noesc. Qed.
 Print Assumptions escape_free_inputs_give_escape_free_lines.
-Theorem render_fails_only_if_tokenize_does_inputs : forall sty c simple o x,
+(* THE headline.  Inputs: the exception case x (class name, message, frames with the token streams of their files and
+   lines - or the fact that tokenize / reading raised), the configuration c (verbosity, UTF-8, directories), the report
+   mode, the output o.  Hypotheses that remain: o is an ordinary output (not a section) with an ANSI or plain formatter
+   whose style stack is empty (out_ok); its style table resolves "error" and "b"; if o decorates, the inputs hold no
+   ESC (inputs_ne).  No hypothesis on tokenize.  Then ExceptionTrace.render returns its bytes: it raises nothing. *)
+Theorem render_never_fails_unconditionally : forall sty c simple o x,
   out_ok sty o -> resolvable sty st_error -> resolvable sty st_b ->
-  (simple = false -> render_cond c x) -> (decorated o = true -> inputs_ne c x) ->
+  (decorated o = true -> inputs_ne c x) ->
   exists bytes, render c simple o x = Ok bytes.
-Proof. exact render_never_fails_inputs. Qed.
-Print Assumptions render_fails_only_if_tokenize_does_inputs.
+Proof. exact TraceRenderLemmas.render_never_fails_unconditionally. Qed.
+Print Assumptions render_never_fails_unconditionally.
+(* a failure of render, if there is one (outside these hypotheses), is a failure of writing: never of producing the lines *)
+Theorem render_error_is_a_write_error : forall c simple o x e,
+  render c simple o x = Err e -> exists ls, render_lines c simple (o_indent o) x = Ok ls /\ write_lines o ls = Err e.
+Proof. exact render_err_is_write_err. Qed.
+Print Assumptions render_error_is_a_write_error.
 (* undecorated, the bytes are the shown texts of the (indented) pieces, line after line *)
 Theorem plain_report_bytes : forall sty c simple o x ls,
   out_ok sty o -> resolvable sty st_error -> resolvable sty st_b -> decorated o = false ->
@@ -253,6 +295,36 @@ Theorem full_report_says_name_and_message : forall sty c o x bytes,
               ++ flat_map shown_line sn_p.
 Proof. exact full_bytes. Qed.
 Print Assumptions full_report_says_name_and_message.
+(* and render always returns these bytes on an undecorated output: no hypothesis on the exception case but that it has frames *)
+Theorem full_report_always_says_name_and_message : forall sty c o x,
+  out_ok sty o -> resolvable sty st_error -> resolvable sty st_b -> decorated o = false -> (0 <= o_indent o)%Z ->
+  x_frames x <> [] ->
+  let ind := (o_indent o + 2)%Z in
+  exists tr_p sn_p,
+    render_trace c ind (x_frames x) = Ok (map pline_w tr_p) /\
+    render_snippet c ind (last (x_frames x) dflt_frame) = Ok (map pline_w sn_p) /\
+    render c false o x
+    = Ok (o_buf o ++ flat_map shown_line tr_p
+            ++ [NL] ++ spaces ind ++ shown (ind_text ind (x_name x)) ++ [NL]
+            ++ [NL] ++ spaces ind ++ shown (ind_text ind (msg_text (x_msg x))) ++ [NL]
+            ++ flat_map shown_line sn_p).
+Proof. exact full_bytes_total. Qed.
+Print Assumptions full_report_always_says_name_and_message.
+(* the file of the failing frame cannot be read or tokenized: the report is produced all the same; after the message
+   block come a blank line and the location line  "at file:line in function"  (at_pieces) - and no snippet lines *)
+Theorem unreadable_source_report : forall sty c o x,
+  out_ok sty o -> resolvable sty st_error -> resolvable sty st_b -> decorated o = false -> (0 <= o_indent o)%Z ->
+  x_frames x <> [] -> ~ tok_ok (f_content (last (x_frames x) dflt_frame)) ->
+  let ind := (o_indent o + 2)%Z in
+  exists tr_p,
+    render_trace c ind (x_frames x) = Ok (map pline_w tr_p) /\
+    render c false o x
+    = Ok (o_buf o ++ flat_map shown_line tr_p
+            ++ [NL] ++ spaces ind ++ shown (ind_text ind (x_name x)) ++ [NL]
+            ++ [NL] ++ spaces ind ++ shown (ind_text ind (msg_text (x_msg x))) ++ [NL]
+            ++ [NL] ++ shown_line (ind, at_pieces c (last (x_frames x) dflt_frame))).
+Proof. exact full_bytes_unreadable. Qed.
+Print Assumptions unreadable_source_report.
 Theorem full_report_one_line_message : forall sty c o x bytes,
   out_ok sty o -> resolvable sty st_error -> resolvable sty st_b -> decorated o = false -> (0 <= o_indent o)%Z ->
   x_frames x <> [] -> no_nl (x_name x) -> no_nl (x_msg x) -> render c false o x = Ok bytes ->
@@ -280,12 +352,11 @@ Theorem every_written_line_with_solutions_is_literals_and_separators : forall st
   forall c simple ind x sols ls, render_lines_sol c simple ind x sols = Ok ls -> Forall (fun wl => good_line sty (snd wl)) ls.
 Proof. exact render_lines_sol_good. Qed.
 Print Assumptions every_written_line_with_solutions_is_literals_and_separators.
-(* the solutions add no failure: the lines exist under exactly the condition of the report alone ... *)
-Theorem solutions_add_no_failure : forall c ind x sols,
-  (exists ls, render_lines_sol c false ind x sols = Ok ls) <-> render_cond c x.
-Proof. exact render_lines_sol_ok. Qed.
+(* the solutions add no failure: the lines always exist ... *)
+Theorem solutions_add_no_failure : forall c simple ind x sols, exists ls, render_lines_sol c simple ind x sols = Ok ls.
+Proof. exact render_lines_sol_total. Qed.
 Print Assumptions solutions_add_no_failure.
-(* ... and once they exist writing them cannot fail ... *)
+(* ... and writing them cannot fail ... *)
 Theorem writing_the_report_with_solutions_never_fails : forall sty c simple o x sols ls,
   out_ok sty o -> resolvable sty st_error -> resolvable sty st_b ->
   render_lines_sol c simple (o_indent o) x sols = Ok ls ->
@@ -293,24 +364,30 @@ Theorem writing_the_report_with_solutions_never_fails : forall sty c simple o x 
   exists bytes, render_sol c simple o x sols = Ok bytes.
 Proof. exact render_sol_never_fails_l. Qed.
 Print Assumptions writing_the_report_with_solutions_never_fails.
-(* ... so render with a solution provider repository fails only if tokenize does *)
-Theorem render_with_solutions_fails_only_if_tokenize_does : forall sty c simple o x sols,
+(* ... so render with a solution provider repository never fails: undecorated, for every exception case and solutions *)
+Theorem render_with_solutions_never_fails_undecorated : forall sty c simple o x sols,
+  out_ok sty o -> resolvable sty st_error -> resolvable sty st_b -> decorated o = false ->
+  exists bytes, render_sol c simple o x sols = Ok bytes.
+Proof. exact render_sol_never_fails_plain. Qed.
+Print Assumptions render_with_solutions_never_fails_undecorated.
+Theorem render_with_solutions_never_fails_given_escape_free_lines : forall sty c simple o x sols,
   out_ok sty o -> resolvable sty st_error -> resolvable sty st_b ->
-  (simple = false -> render_cond c x) ->
   (decorated o = true -> forall ls, render_lines_sol c simple (o_indent o) x sols = Ok ls -> Forall (fun wl => no_esc (snd wl)) ls) ->
   exists bytes, render_sol c simple o x sols = Ok bytes.
 Proof. exact render_sol_never_fails. Qed.
-Print Assumptions render_with_solutions_fails_only_if_tokenize_does.
+Print Assumptions render_with_solutions_never_fails_given_escape_free_lines.
 Theorem escape_free_solutions_give_escape_free_lines : forall c simple ind x sols ls, inputs_ne c x -> Forall sol_ne sols ->
   render_lines_sol c simple ind x sols = Ok ls -> Forall (fun wl => no_esc (snd wl)) ls.
 Proof. exact lines_sol_noesc. Qed.
 Print Assumptions escape_free_solutions_give_escape_free_lines.
-Theorem render_with_solutions_fails_only_if_tokenize_does_inputs : forall sty c simple o x sols,
+(* the headline with solutions: hypotheses as in render_never_fails_unconditionally, plus ESC-free solution texts when
+   the output decorates *)
+Theorem render_with_solutions_never_fails_unconditionally : forall sty c simple o x sols,
   out_ok sty o -> resolvable sty st_error -> resolvable sty st_b ->
-  (simple = false -> render_cond c x) -> (decorated o = true -> inputs_ne c x /\ Forall sol_ne sols) ->
+  (decorated o = true -> inputs_ne c x /\ Forall sol_ne sols) ->
   exists bytes, render_sol c simple o x sols = Ok bytes.
-Proof. exact render_sol_never_fails_inputs. Qed.
-Print Assumptions render_with_solutions_fails_only_if_tokenize_does_inputs.
+Proof. exact render_sol_never_fails_unconditionally. Qed.
+Print Assumptions render_with_solutions_never_fails_unconditionally.
 (* undecorated, the bytes are those of the report followed by, per solution, a blank line and the block:
    sol_shown ind utf8 s = blanks, bullet, blank, shown title, ": ", shown description, the links each on its own line
    (links_shown), a line break - every text indented as Output does (ind_text) *)
@@ -322,6 +399,14 @@ Theorem solutions_follow_the_report : forall sty c o x sols bytes,
     bytes = report ++ flat_map (fun s => [NL] ++ sol_shown ind (t_utf8 c) s) sols.
 Proof. exact sol_bytes. Qed.
 Print Assumptions solutions_follow_the_report.
+Theorem solutions_always_follow_the_report : forall sty c o x sols,
+  out_ok sty o -> resolvable sty st_error -> resolvable sty st_b -> decorated o = false -> (0 <= o_indent o)%Z ->
+  x_frames x <> [] ->
+  let ind := (o_indent o + 2)%Z in
+  exists report, render c false o x = Ok report /\
+    render_sol c false o x sols = Ok (report ++ flat_map (fun s => [NL] ++ sol_shown ind (t_utf8 c) s) sols).
+Proof. exact sol_bytes_total. Qed.
+Print Assumptions solutions_always_follow_the_report.
 Theorem full_report_with_solutions : forall sty c o x sols bytes,
   out_ok sty o -> resolvable sty st_error -> resolvable sty st_b -> decorated o = false -> (0 <= o_indent o)%Z ->
   x_frames x <> [] -> render_sol c false o x sols = Ok bytes ->
@@ -348,3 +433,49 @@ Print Assumptions solution_block_one_line_texts.
 Theorem simple_report_has_no_solutions : forall c o x sols, render_sol c true o x sols = render c true o x.
 Proof. exact render_sol_simple. Qed.
 Print Assumptions simple_report_has_no_solutions.
+
+(* ---- a source that cannot be read or tokenized: the report is produced without snippet lines (vm_compute) ---- *)
+Module Unreadable.
+  Import RenderExamples SolutionExamples.
+  (* bad_frame: tokenize raised TokenError on the file and on the line; bad_frame2: another exception (the file cannot be
+     read: UnicodeDecodeError).  The write_line calls: blank, class name, blank, message, blank, location - no snippet *)
+  Example token_error_lines :
+    render_lines (demo_cfg false) false 0 (demo_x [bad_frame])
+    = Ok [(2, []); (2, name_line (demo_x [])); (2, []); (2, msg_line (demo_x [])); (2, []);
+          (2, s_at ++ location (demo_cfg false) st_green bad_frame)]%Z.
+  Proof. vm_compute. reflexivity. Qed.
+  Example other_exception_lines :
+    render_lines (demo_cfg false) false 0 (demo_x [bad_frame2])
+    = Ok [(2, []); (2, name_line (demo_x [])); (2, []); (2, msg_line (demo_x [])); (2, []);
+          (2, s_at ++ location (demo_cfg false) st_green bad_frame2)]%Z.
+  Proof. vm_compute. reflexivity. Qed.
+  (* the bytes: ... the message, a blank line, "  at a.py:1 in f" / "  at b.py:7 in g" and nothing after it *)
+  Example token_error_bytes :
+    render (demo_cfg false) false (demo_out FPlain false 0) (demo_x [bad_frame])
+    = Ok (ex_head ++ [10;32;32;97;116;32;97;46;112;121;58;49;32;105;110;32;102;10]%N).
+  Proof. exact ex_unreadable_vm. Qed.
+  Example other_exception_bytes :
+    render (demo_cfg false) false (demo_out FPlain false 0) (demo_x [bad_frame2])
+    = Ok (ex_head ++ [10;32;32;97;116;32;98;46;112;121;58;55;32;105;110;32;103;10]%N).
+  Proof. exact ex_unreadable_other_vm. Qed.
+  (* with the stack trace (-v): the frame's own line shown plain; at -vvv nothing under a frame whose file is unreadable *)
+  Example verbose_bytes :
+    render (demo_cfg true) false (demo_out FPlain false 0) (demo_x [bad_frame2; demo_frame; bad_frame])
+    = Ok ([10;32;32;83;116;97;99;107;32;116;114;97;99;101;58;10]%N
+          ++ [10;32;32;50;32;32;98;46;112;121;58;55;32;105;110;32;103;10]%N ++ [32;32;32;32;32;121;32;60;32;49;10]%N
+          ++ [10;32;32;49;32;32;97;46;112;121;58;49;32;105;110;32;60;102;62;10]%N ++ [32;32;32;32;32;120;10]%N
+          ++ ex_head ++ [10;32;32;97;116;32;97;46;112;121;58;49;32;105;110;32;102;10]%N).
+  Proof. exact ex_unreadable_verbose_vm. Qed.
+  Example debug_bytes :
+    render demo_cfg_debug false (demo_out FPlain false 0) (demo_x [bad_frame2; demo_frame; bad_frame])
+    = Ok ([10;32;32;83;116;97;99;107;32;116;114;97;99;101;58;10]%N
+          ++ [10;32;32;50;32;32;98;46;112;121;58;55;32;105;110;32;103;10]%N
+          ++ [10;32;32;49;32;32;97;46;112;121;58;49;32;105;110;32;60;102;62;10]%N ++ [32;32;32;32;62;32;32;32;49;124;32;120;10]%N
+          ++ ex_head ++ [10;32;32;97;116;32;97;46;112;121;58;49;32;105;110;32;102;10]%N).
+  Proof. exact ex_unreadable_debug_vm. Qed.
+  (* with a solution: the block follows the location line *)
+  Example token_error_bytes_with_solution :
+    render_sol (demo_cfg false) false (demo_out FPlain false 0) (demo_x [bad_frame]) [ex_s1]
+    = Ok (ex_head ++ [10;32;32;97;116;32;97;46;112;121;58;49;32;105;110;32;102;10]%N ++ ex_block1).
+  Proof. exact ex_sol_unreadable_vm. Qed.
+End Unreadable.
